@@ -134,17 +134,23 @@ func cmdCheck(args []string) int {
 		}
 	}
 	var unsupported []string
+	var unattached []*vc.ObResult
 	var assumptions = map[string]bool{}
 	var funcsUnder []string
 	for _, t := range targets {
 		fr, err := env.GenByKey(t.pkg, t.key)
-		if err != nil {
-			machineryErrors = append(machineryErrors, err.Error())
-			continue
-		}
-		if fr.Unsupported != "" {
-			unsupported = append(unsupported, t.key+": "+fr.Unsupported)
-			machineryErrors = append(machineryErrors, "function outside the supported subset: "+t.key+": "+fr.Unsupported)
+		if err != nil || fr.Unsupported != "" {
+			// the contract of this function can no longer be established at all (its code left the
+			// verifiable subset, or the contract no longer attaches to the code): an undischarged obligation
+			why := ""
+			if err != nil {
+				why = err.Error()
+			} else {
+				why = "function outside the supported subset: " + fr.Unsupported
+				unsupported = append(unsupported, t.key+": "+fr.Unsupported)
+			}
+			ob := &vc.Obligation{Name: t.key + "/contract-attaches", Kind: "attach", Fn: t.key, Props: []string{prop}, Src: why}
+			unattached = append(unattached, &vc.ObResult{Ob: ob, Name: ob.Name, Kind: "attach", Verdict: "undecided", Output: why})
 			continue
 		}
 		// keep only obligations routed to this property
@@ -170,13 +176,14 @@ func cmdCheck(args []string) int {
 		}
 	}
 
-	quickT, longT := 10, 40
+	quickT, longT := 10, 120
 	if *tier == "thorough" {
-		quickT, longT = 20, 120
+		quickT, longT = 20, 300
 	}
 	cfg := solverCfg(quickT, longT)
 	cfg.Seed = seed
 	results := vc.Discharge(frs, cfg)
+	results = append(results, unattached...)
 
 	// expected floor
 	var exp map[string]expected
